@@ -84,7 +84,16 @@ def run_case(case, ctx):
         ctx.probe(out.kind)
         if out.kind != "returned":
             ctx.probe("exc_" + type(out.exc).__name__)
-            return  # refusals: nothing promised; crashes are judged by C14 / C05
+            if out.kind == "crashed":
+                # not one of the documented refusals: the (dataset, scheme) was not declined, the call just failed
+                mr_c = cur["mr"] if cur["mr"] is not None else mr
+                tags_c = cur["tags"] if cur["tags"] is not None else tags
+                ctx.violate("C03/no-consensus", f"{type(out.exc).__name__}: {str(out.exc)[:160]}",
+                            "at least one consensus ranking (or a documented refusal)",
+                            dict(tags_c, alg=out.label.split("(")[0], env=ctx.env, exc=type(out.exc).__name__), out.label)
+                ctx.violations[-1]["case_override"] = dict(
+                    case, sweep=False, calls=[dict(call_spec, sched={"draws": out.picks, "fallback": "first", "seed": 0})])
+            return  # documented refusals: nothing promised
         ctx.probe("checked_rankings", len(getattr(out.cons, "consensus_rankings", []) or []))
         if tags["n"] >= 2:
             ctx.probe("returned_n2")
